@@ -197,6 +197,11 @@ impl<'tcx> Cx<'tcx> {
             let full = with_no_trimmed_paths!(tcx.def_path_str_with_args(*did, args));
             return format!("[\"c\",\"fn\",{},{}]", js(&self.path(*did)), js(&full));
         }
+        if let Const::Unevaluated(uv, _) = c {
+            if let Some(p) = uv.promoted {
+                return format!("[\"c\",\"p\",{},{}]", js(&self.path(uv.def)), p.as_u32());
+            }
+        }
         let env = TypingEnv::post_analysis(tcx, body_did);
         if t.is_integral() || t.is_bool() || t.is_char() || t.is_floating_point() {
             if let Some(si) = c.try_eval_scalar_int(tcx, env) {
@@ -398,10 +403,21 @@ impl<'tcx> Cx<'tcx> {
     fn body(&self, did: DefId, out: &mut String) {
         let tcx = self.tcx;
         let body: &Body<'tcx> = tcx.optimized_mir(did);
-        let kind = match tcx.def_kind(did) {
-            DefKind::Fn => "fn",
-            DefKind::AssocFn => "assoc",
-            DefKind::Closure => "closure",
+        self.one_body(did, body, None, out);
+        let proms = tcx.promoted_mir(did);
+        for (i, pb) in proms.iter_enumerated() {
+            out.push(',');
+            self.one_body(did, pb, Some(i.as_u32()), out);
+        }
+    }
+
+    fn one_body(&self, did: DefId, body: &Body<'tcx>, promoted: Option<u32>, out: &mut String) {
+        let tcx = self.tcx;
+        let kind = match (promoted, tcx.def_kind(did)) {
+            (Some(_), _) => "promoted",
+            (_, DefKind::Fn) => "fn",
+            (_, DefKind::AssocFn) => "assoc",
+            (_, DefKind::Closure) => "closure",
             _ => "other",
         };
         let (line, file) = self.line(body.span);
@@ -414,7 +430,10 @@ impl<'tcx> Cx<'tcx> {
         let _ = write!(
             out,
             "{{\"p\":{},\"k\":\"{}\",\"root\":{},\"file\":{},\"line\":{},\"vis\":\"{}\",\"argc\":{},",
-            js(&self.path(did)),
+            js(&match promoted {
+                Some(i) => format!("{}::promoted[{}]", self.path(did), i),
+                None => self.path(did),
+            }),
             kind,
             js(&self.path(root)),
             js(&file),
